@@ -203,6 +203,8 @@ CHECKS = {
         ] + [H("scopes", "scope_v1", 3, 4, args=[a, j]) for a in (0, 1) for j in (0, 1, 2)] + [
             H("scopes", "scope_v0", 3, 4, args=[0]),
             H("scopes", "scope_v0", 3, 4, args=[1]),
+            H("scopes", "scope_ops", args=[0, 5]), H("scopes", "scope_ops", args=[1, 5]),
+            H("scopes", "scope_ops", args=[0, 7], thorough_only=True), H("scopes", "scope_ops", args=[1, 7], thorough_only=True),
             H("futures", "fut_ops", args=[5]), H("futures", "fut_ops", args=[6], thorough_only=True),
         ],
     },
